@@ -115,6 +115,26 @@ def seeds_for(prop):
     return out
 
 
+def run_mech(args):
+    """one mechanical rewrite of the whole current tree (mechvar.py): the check must exit 0 and discharge exactly the
+    obligations it discharges on the unchanged tree"""
+    import re
+    kind, prop, base = args
+    from . import mechvar
+    try:
+        ov = mechvar.overrides(kind, REPO)
+    except Exception as e:            # a source the rewriter cannot handle is not the check's fault
+        return kind, 'SKIP', 'rewrite failed: %r' % (e,)
+    rc, out = _run_variant(prop, ov)
+    m = re.search(r'obligations=(\d+) pass=(\d+)', out)
+    cnt = m.group(0) if m else ''
+    if rc != 0:
+        return kind, 'ALARM', out
+    if base and cnt != base:
+        return kind, 'COUNT', 'on the rewritten tree: %s, on the unchanged tree: %s' % (cnt, base)
+    return kind, 'OK', cnt
+
+
 def validate(prop, jobs=16):
     """Run the owned part of the catalogue and the seeds for `prop`. Returns (summary dict, fixtures list)."""
     import concurrent.futures as cf
@@ -134,8 +154,15 @@ def validate(prop, jobs=16):
     tasks_seed = [(d, prop) for d in seeds_for(prop)]
     tasks_ben = [(f, prop) for f in benign_files()]
     tasks_mut = [(m, prop) for m in mutation_corpus(prop)]
+    import re
+    from . import mechvar
+    rc0, out0 = _run_variant(prop, {})
+    m0 = re.search(r'obligations=(\d+) pass=(\d+)', out0)
+    base_cnt = m0.group(0) if m0 else ''
+    tasks_mech = [(k, prop, base_cnt) for k in mechvar.KINDS]
     res_cat, res_seed, res_ben, res_mut = [], [], [], []
     with cf.ProcessPoolExecutor(max_workers=jobs) as ex:
+        f5 = [ex.submit(run_mech, t) for t in tasks_mech]
         f1 = [ex.submit(run_entry, t) for t in tasks_cat]
         f2 = [ex.submit(run_seed, t) for t in tasks_seed]
         f3 = [ex.submit(run_benign, t) for t in tasks_ben]
@@ -144,6 +171,7 @@ def validate(prop, jobs=16):
         res_seed = [f.result() for f in f2]
         res_ben = [f.result() for f in f3]
         res_mut = [f.result() for f in f4]
+        res_mech = [f.result() for f in f5]
     fixtures = []
     summ = {'mutants_breaking_run': 0, 'mutants_breaking_correct': 0, 'mutants_benign_run': 0,
             'mutants_benign_correct': 0, 'seeds_run': 0, 'seeds_detected': 0, 'skipped': 0}
@@ -195,6 +223,19 @@ def validate(prop, jobs=16):
                              'why': ('a mutant this check used to report is no longer reported' if status == 'MISS' else
                                      'a mutant triaged as behaviour-preserving raises an alarm: ' + ' | '.join(
                                          l for l in text.split('\n') if l.startswith(('VIOLATION', 'ANALYSIS')))[:300])})
+    summ['mechanical_rewrites_run'] = summ['mechanical_rewrites_silent_same_obligations'] = 0
+    for kind, status, text in res_mech:
+        if status == 'SKIP':
+            summ['skipped'] += 1
+            continue
+        summ['mechanical_rewrites_run'] += 1
+        if status == 'OK':
+            summ['mechanical_rewrites_silent_same_obligations'] += 1
+        else:
+            fixtures.append({'name': 'mechanical rewrite %s' % kind, 'ok': False,
+                             'why': ('the check raised an alarm on a behaviour-preserving rewrite: ' + ' | '.join(
+                                 l for l in text.split('\n') if l.startswith(('VIOLATION', 'ANALYSIS')))[:300])
+                             if status == 'ALARM' else 'the check discharges different obligations ' + text})
     return summ, fixtures
 
 
